@@ -29,7 +29,7 @@ class Unit:
     def __init__(self, name, props, tu, roots, target, contracts, harness=None, replace=(), stops=(), unwind=None,
                  defines=(), quick_defines=(), thorough_defines=(), tiers=("quick", "thorough"), replay=None,
                  kind="proof", bound_note="", timeout=None, extra_cbmc=(), loop_contracts=False, trusted=(),
-                 note="", mutants=(), solver=None, object_bits=None, no_canary=False, known=(), spec_target=False, unwindset=(), quick_unwind=None, mem_gb=None, quick_unwindset=(), thorough_object_bits=None, thorough_timeout=None, dfcc=True):
+                 note="", mutants=(), solver=None, object_bits=None, no_canary=False, known=(), spec_target=False, unwindset=(), quick_unwind=None, mem_gb=None, quick_unwindset=(), thorough_object_bits=None, thorough_timeout=None, dfcc=True, quick_kind=None, quick_bound_note=""):
         self.name = name
         self.props = list(props)
         self.tu = tu
@@ -57,6 +57,8 @@ class Unit:
         self.object_bits = object_bits
         self.thorough_object_bits = thorough_object_bits
         self.thorough_timeout = thorough_timeout
+        self.quick_kind = quick_kind          # e.g. "bounded": the quick tier explores a bounded part of what the thorough tier proves
+        self.quick_bound_note = quick_bound_note
         self.dfcc = dfcc        # False: the harness assumes the precondition and asserts the postcondition itself (no frame check)
         self.no_canary = no_canary
         self.known = list(known)
